@@ -13,7 +13,7 @@ use std::str::FromStr;
 const NAMES14: [&str; 2] = ["a", "lib-x"];
 const QUALS: [Option<&str>; 2] = [None, Some("any")];
 const VERSIONS: [Option<(&str, &str)>; 6] = [None, Some((">=", "1")), Some(("<<", "2:1.0-1")), Some(("=", "1.0~rc1")), Some(("<=", "1")), Some((">>", "1"))];
-const ARCHS14: [Option<&[&str]>; 6] = [None, Some(&[]), Some(&["amd64"]), Some(&["amd64", "i386"]), Some(&["!amd64"]), Some(&["!amd64", "!i386"])];
+const ARCHS14: [Option<&[&str]>; 7] = [None, Some(&[]), Some(&["amd64"]), Some(&["amd64", "i386"]), Some(&["!amd64"]), Some(&["!amd64", "!i386"]), Some(&["i386", "amd64", "arm64"])];
 /// every group shape: 1..3 terms (names x, y, z in that order), every negation pattern -> 14 shapes;
 /// profile lists: none, one group (14), two groups (first from 14, second from 4 representative shapes)
 fn group_shapes() -> Vec<Vec<String>> {
@@ -37,6 +37,12 @@ fn profs() -> Vec<Vec<Vec<String>>> {
             out.push(vec![a.clone(), b.clone()]);
         }
     }
+    // three and four groups (a group is added after the LAST existing one)
+    out.push(vec![g[0].clone(), g[1].clone(), g[3].clone()]);
+    out.push(vec![g[1].clone(), g[12].clone(), g[0].clone()]);
+    out.push(vec![g[3].clone(), g[0].clone(), g[1].clone()]);
+    out.push(vec![g[0].clone(), g[0].clone(), g[0].clone()]);
+    out.push(vec![g[0].clone(), g[1].clone(), g[3].clone(), g[12].clone()]);
     out
 }
 
@@ -183,7 +189,7 @@ impl Prop for C14 {
         "exploration"
     }
     fn rule(&self, _t: Tier) -> String {
-        "full product of lossy Relation values over 2 names x {no, 'any'} qualifier x {none, >= 1, << 2:1.0-1, = 1.0~rc1, <= 1, >> 1} x 6 architecture lists (None, empty, 1-2 plain, 1-2 negated) x 71 profile lists (no group; every one-group shape of 1-3 terms with every negation pattern; two groups) (10224 values, each also assembled through RelationBuilder), and every Relations value of <= 2 entries x <= 2 alternatives (thorough: also 3 entries x <= 2 alternatives over a 6-element subset) over a 12-element subset; each is printed, re-read by both readers, converted lossy->lossless->lossy and Entry<->Vec; all cases distinct; non-trivial = value with at least one optional part or more than one relation".into()
+        "full product of lossy Relation values over 2 names x {no, 'any'} qualifier x {none, >= 1, << 2:1.0-1, = 1.0~rc1, <= 1, >> 1} x 7 architecture lists (None, empty, 1-2 plain, 1-2 negated) x 71 profile lists (no group; every one-group shape of 1-3 terms with every negation pattern; two groups) (10224 values, each also assembled through RelationBuilder), and every Relations value of <= 2 entries x <= 2 alternatives (thorough: also 3 entries x <= 2 alternatives over a 6-element subset) over a 12-element subset; each is printed, re-read by both readers, converted lossy->lossless->lossy and Entry<->Vec; all cases distinct; non-trivial = value with at least one optional part or more than one relation".into()
     }
     fn bounds(&self, t: Tier) -> Value {
         json!({"single_relations": menus().iter().product::<usize>(), "subset": subset().len(), "max_entries": t.pick(2, 3), "max_alternatives": 2})
@@ -198,7 +204,7 @@ impl Prop for C14 {
         if shard == 1 + t.pick(2, 3) {
             // values obtained by parsing: the full product of relgen's relation parts in three layouts
             // (canonical; blanks inside all brackets; wide blanks between the parts)
-            product(&[3, 3, 6, crate::relgen::VERS.len(), 6, 8], &mut |pv| {
+            product(&[3, 3, 6, crate::relgen::VERS.len(), crate::relgen::ARCHS.len(), 8], &mut |pv| {
                 for ws in 0..3 {
                     let mut v = vec![0usize; REL_SLOTS];
                     v[..6].copy_from_slice(pv);
